@@ -24,7 +24,8 @@ def register(w):
     w.fields("VFSZip", zipfilename="str", zip="obj:ZipFile", dircache="opaque:dircache", entrycache="opaque:entrycache",
              invalid_paths="opaque:set", zipfd="obj:RFile")
     P = ["C16"]
-    w.always_standin["C11"] = [(Z + "init_cache", "what a later read through a lazily loaded shelf raises for a damaged cache file depends on the dbm backend: every prefix / zero fill of every cache file")]
+    w.always_standin["C11"] = [(Z + "init_cache", "what a later read through a lazily loaded shelf raises for a damaged cache file depends on the dbm backend: every prefix / zero fill of every cache file"),
+                               ("pygopherd/handlers/dir.py::DirHandler.savecache", "what a writer killed after k bytes leaves behind in the served directory is a property of the crash history, not of one call: forked writers killed in mid-write, then the next listing")]
     w.always_standin["C16"] = [(Z + "populate_cache", "the member index (dict of dicts, untagged union, symlink fixpoint) is outside the subset: archive vs. extracted tree")]
     LOOP = {0: dict(invariant=["self.selector.startswith(basename)", "basename.startswith('/')", "S.secure(basename)", "S.safe_sel(basename)",
                                "(appendage is None) == (basename == self.selector)"],
